@@ -42,6 +42,7 @@ import (
 	"time"
 
 	"verifharness/macho"
+	"verifharness/magic"
 	"verifharness/pe"
 	"verifharness/pgp"
 )
@@ -674,6 +675,8 @@ func opFunc(fields []string) (func() string, int) {
 		return func() string { return macho.Handle(fields[1:]) }, n
 	case "PGP":
 		return func() string { return pgp.Handle(fields[1:]) }, pgp.InputLen(fields[1:])
+	case "MAGIC":
+		return func() string { return magic.Handle(fields[1:]) }, magic.InputLen(fields[1:])
 	case "APKBLK", "CSBLOB", "XAPSIG", "BINLOAD":
 		if len(fields) != 3 {
 			return nil, 0
